@@ -20,6 +20,8 @@ pub struct PGen<'a> {
     pub path_bias: bool,
     /// generate `| safe` and safe-marking constructs
     pub allow_safe: bool,
+    /// template text and component wrappers without any markup character (C01 mode A)
+    pub markup_free: bool,
     ninc: usize,
     ncomp: usize,
     loop_depth: usize,
@@ -69,7 +71,7 @@ pub fn base_context() -> Vec<(&'static str, V)> {
 
 impl<'a> PGen<'a> {
     pub fn new(rng: &'a mut Rng) -> Self {
-        PGen { rng, path_bias: false, allow_safe: true, ninc: 0, ncomp: 0, loop_depth: 0, depth: 0, in_component: false }
+        PGen { rng, path_bias: false, allow_safe: true, markup_free: false, ninc: 0, ncomp: 0, loop_depth: 0, depth: 0, in_component: false }
     }
 
     fn pick<'b>(&mut self, xs: &'b [&'b str]) -> &'b str {
@@ -229,7 +231,13 @@ impl<'a> PGen<'a> {
         for _ in 0..n {
             let choice = self.rng.below(if self.depth > 3 { 4 } else { 16 });
             match choice {
-                0 | 1 => out.push_str(self.pick(&["text ", "<p>", "</p>\n", " & ", "日本 ", "\n", "x"])),
+                0 | 1 => {
+                    if self.markup_free {
+                        out.push_str(self.pick(&["text ", "(p)", "(/p)\n", " + ", "日本 ", "\n", "x"]))
+                    } else {
+                        out.push_str(self.pick(&["text ", "<p>", "</p>\n", " & ", "日本 ", "\n", "x"]))
+                    }
+                }
                 2 | 3 => out.push_str(&self.print_stmt()),
                 4 | 5 => {
                     let c = self.cond(0);
@@ -342,7 +350,8 @@ impl<'a> PGen<'a> {
             // a component may call a lower-numbered one
             let inner = self.body(&[], &components.clone());
             self.in_component = false;
-            comp_src.push_str(&format!("{{% component {name}(a, b = \"dflt\", n: integer = 1, ...rest) %}}<{i}>{inner}</{i}>{{% endcomponent {name} %}}\n"));
+            let (open, close) = if self.markup_free { (format!("({i})"), format!("(/{i})")) } else { (format!("<{i}>"), format!("</{i}>")) };
+            comp_src.push_str(&format!("{{% component {name}(a, b = \"dflt\", n: integer = 1, ...rest) %}}{open}{inner}{close}{{% endcomponent {name} %}}\n"));
             components.push(name);
         }
         if !components.is_empty() {
